@@ -6,19 +6,283 @@ open PhyVerif PhyVerif.C16 PhyVerif.C03
 
 variable {α : Type} [Zero α]
 
+/-! ### `extract_eq_window` -/
+
+/-- one row of the recording after channel pick and −1 masking -/
+theorem row_pick (nch : Nat) (row : List α) (ch : List Int)
+    (hch : ChOK nch ch) :
+    ((ch.map (pickCol row)).zip ch).map (fun (v, c) => if c == -1 then 0 else v) =
+      ch.map fun c => if c ≠ -1 then row.getD c.toNat 0 else 0 := by
+  induction ch with
+  | nil => rfl
+  | cons c t ih =>
+    have hc := hch c (by simp)
+    have ih' := ih (fun c hc => hch c (by simp [hc]))
+    simp only [List.map_cons, List.zip_cons_cons]
+    rw [ih']
+    congr 1
+    rcases hc with h | ⟨h0, h1⟩
+    · simp [h]
+    · have h1 : c ≠ -1 := by omega
+      have h2 : ¬ c < 0 := by omega
+      simp [h1, h2, pickCol]
+
+omit [Zero α] in
+theorem getElem?_rowsSlice_map {β : Type} (A : List (List α)) (lo hi : Int) (F : List α → β) (k : Nat) :
+    ((rowsSlice A lo hi).map F)[k]? =
+      if k < hi.toNat - lo.toNat then (A[lo.toNat + k]?).map F else none := by
+  simp only [rowsSlice, List.getElem?_map, List.getElem?_take, List.getElem?_drop]
+  split <;> simp
+
+theorem getElem?_window (A : List (List α)) (s : Int) (n : Nat) (ch : List Int) (i : Nat) :
+    (window A s n ch)[i]? = if i < n then some (ch.map fun c =>
+      if 0 ≤ s - (n / 2 : Nat) + i ∧ s - (n / 2 : Nat) + i < (A.length : Int) ∧ c ≠ -1
+      then (A.getD (s - (n / 2 : Nat) + i).toNat []).getD c.toNat 0 else 0) else none := by
+  simp only [window, List.getElem?_map]
+  split <;> simp_all
+
+/-- masked row as a function of the raw row -/
+def mrow (ch : List Int) (row : List α) : List α :=
+  ch.map fun c => if c ≠ -1 then row.getD c.toNat 0 else 0
+
+/-- the picked and masked rows of `extractWaveform` -/
+theorem getElem?_core (A : List (List α)) (lo hi : Int) (nch : Nat) (ch : List Int)
+    (hch : ChOK nch ch) (k : Nat) :
+    (((rowsSlice A lo hi).map fun row => ch.map (pickCol row)).map fun row =>
+        (row.zip ch).map fun (v, c) => if c == -1 then 0 else v)[k]? =
+      if k < hi.toNat - lo.toNat then (A[lo.toNat + k]?).map (mrow ch) else none := by
+  rw [List.map_map, getElem?_rowsSlice_map]
+  split
+  · cases A[lo.toNat + k]? with
+    | none => rfl
+    | some row => simp only [Option.map_some, Function.comp_apply, mrow]; congr 1; exact row_pick nch row ch hch
+  · rfl
+
+theorem length_core (A : List (List α)) (lo hi : Int) (ch : List Int) :
+    (((rowsSlice A lo hi).map fun row => ch.map (pickCol row)).map fun row =>
+        (row.zip ch).map fun (v, c) => if c == -1 then 0 else v).length =
+      min (hi.toNat - lo.toNat) (A.length - lo.toNat) := by
+  simp [rowsSlice]
+
+theorem extract_form (A : List (List α)) (s : Int) (n : Nat) (ch : List Int) :
+    extractWaveform A s n ch =
+      List.replicate (-(s - (n / 2 : Nat))).toNat (List.replicate ch.length 0) ++
+      (((rowsSlice A (max 0 (s - (n / 2 : Nat))) (s + (n - n / 2 : Nat))).map fun row =>
+          ch.map (pickCol row)).map fun row =>
+        (row.zip ch).map fun (v, c) => if c == -1 then 0 else v) ++
+      List.replicate (s + (n - n / 2 : Nat) - A.length).toNat (List.replicate ch.length 0) := by
+  unfold extractWaveform
+  dsimp only
+  have e1 : (n : Int) / 2 = ((n / 2 : Nat) : Int) := by omega
+  have e2 : (n : Int) - ((n / 2 : Nat) : Int) = ((n - n / 2 : Nat) : Int) := by omega
+  rw [e1, e2]
+  generalize List.map _ (List.map _ (rowsSlice A _ _)) = W
+  unfold zeroRows
+  split <;> split
+  · rfl
+  · have h : (-(s - ((n / 2 : Nat) : Int))).toNat = 0 := by omega
+    rw [h]; rfl
+  · have h : (s + ((n - n / 2 : Nat) : Int) - (A.length : Int)).toNat = 0 := by omega
+    rw [h]; simp
+  · have h : (-(s - ((n / 2 : Nat) : Int))).toNat = 0 := by omega
+    have h' : (s + ((n - n / 2 : Nat) : Int) - (A.length : Int)).toNat = 0 := by omega
+    rw [h, h']; simp
+
+theorem wrow_out (A : List (List α)) (r : Int) (ch : List Int) (h : ¬ (0 ≤ r ∧ r < (A.length : Int))) :
+    (ch.map fun c => if 0 ≤ r ∧ r < (A.length : Int) ∧ c ≠ -1
+      then (A.getD r.toNat []).getD c.toNat 0 else 0) = List.replicate ch.length 0 := by
+  have : ∀ c : Int, ¬ (0 ≤ r ∧ r < (A.length : Int) ∧ c ≠ -1) := fun c hc => h ⟨hc.1, hc.2.1⟩
+  simp only [this, if_false]
+  exact List.map_const' ..
+
+theorem wrow_in (A : List (List α)) (r : Int) (ch : List Int) (h0 : 0 ≤ r) (h1 : r < (A.length : Int))
+    (idx : Nat) (hidx : idx = r.toNat) :
+    (A[idx]?).map (mrow ch) = some (ch.map fun c => if 0 ≤ r ∧ r < (A.length : Int) ∧ c ≠ -1
+      then (A.getD r.toNat []).getD c.toNat 0 else 0) := by
+  subst hidx
+  have hlt : r.toNat < A.length := by omega
+  have hg : A.getD r.toNat [] = A[r.toNat] := by simp [List.getD_eq_getElem?_getD, hlt]
+  rw [List.getElem?_eq_getElem hlt, hg]
+  simp only [Option.map_some, mrow, h0, h1, true_and]
+
+-- `hA` (and `hn`, and the upper bound in `ChOK`) are not needed by the proof
+set_option linter.unusedVariables false in
 theorem extract_eq_window (A : List (List α)) (nch : Nat) (hA : Rect A nch) (s : Int)
     (hs0 : 0 ≤ s) (hs : s < A.length) (n : Nat) (hn : 0 < n) (ch : List Int) (hch : ChOK nch ch) :
     extractWaveform A s n ch = window A s n ch := by
-  sorry
+  rw [extract_form]
+  apply List.ext_getElem?
+  intro i
+  rw [getElem?_window]
+  simp only [List.getElem?_append, List.length_append, length_core, getElem?_core A _ _ nch ch hch,
+    List.length_replicate, List.getElem?_replicate]
+  have ha : n / 2 + (n - n / 2) = n := by omega
+  generalize n / 2 = a at *
+  generalize n - a = b at *
+  have h1 : ((-(s - (a : Int))).toNat : Int) = max 0 ((a : Int) - s) := by omega
+  have h2 : ((max 0 (s - (a : Int))).toNat : Int) = max 0 (s - (a : Int)) := by omega
+  have h3 : ((s + (b : Int)).toNat : Int) = s + (b : Int) := by omega
+  have h4 : ((s + (b : Int) - (A.length : Int)).toNat : Int) = max 0 (s + (b : Int) - (A.length : Int)) := by
+    omega
+  generalize (-(s - (a : Int))).toNat = L at *
+  generalize (max 0 (s - (a : Int))).toNat = lo at *
+  generalize (s + (b : Int)).toNat = hi at *
+  generalize (s + (b : Int) - (A.length : Int)).toNat = R at *
+  by_cases hi : i < n
+  · rw [if_pos hi]
+    by_cases hr0 : s - (a : Int) + (i : Int) < 0
+    · rw [if_pos (by omega), if_pos (by omega), if_pos (by omega), wrow_out A _ ch (by omega)]
+    · by_cases hr1 : s - (a : Int) + (i : Int) < (A.length : Int)
+      · rw [if_pos (by omega), if_neg (by omega), if_pos (by omega),
+          wrow_in A _ ch (by omega) hr1 _ (by omega)]
+      · rw [if_neg (by omega), if_pos (by omega), wrow_out A _ ch (by omega)]
+  · rw [if_neg (by omega), if_neg (by omega), if_neg hi]
 
+/-! ### `iter_concat_eq_map` -/
+
+theorem ssRight_pair (a b : Nat) (x : Int) (hab : a < b) :
+    (Np.ssRight [(a : Int), (b : Int)] x == 1) = (decide ((a : Int) ≤ x) && decide (x < (b : Int))) := by
+  simp only [Np.ssRight, List.countP_cons, List.countP_nil]
+  by_cases h1 : (a : Int) ≤ x <;> by_cases h2 : (b : Int) ≤ x <;> simp [h1, h2] <;> omega
+
+theorem ssRight_same (a : Nat) (x : Int) :
+    (Np.ssRight [(a : Int), (a : Int)] x == 1) = false := by
+  simp only [Np.ssRight, List.countP_cons, List.countP_nil]
+  by_cases h1 : (a : Int) ≤ x <;> simp [h1]
+
+theorem pairwise_zip_fst {β : Type} : ∀ (l : List Int) (c : List β), l.Pairwise (· ≤ ·) →
+    (l.zip c).Pairwise (fun x y => x.1 ≤ y.1)
+  | [], _, _ => by simp
+  | _ :: _, [], _ => by simp
+  | x :: l, c :: cs, h => by
+    rw [List.pairwise_cons] at h
+    rw [List.zip_cons_cons, List.pairwise_cons]
+    exact ⟨fun y hy => h.1 y.1 (List.of_mem_zip (b := y.2) hy).1, pairwise_zip_fst l cs h.2⟩
+
+/-- sorted keys: the entries in `[a, b)` followed by the entries `≥ b` are the entries `≥ a` -/
+theorem filter_split {β : Type} (a b : Int) (hab : a ≤ b) : ∀ (Z : List (Int × β)),
+    Z.Pairwise (fun x y => x.1 ≤ y.1) →
+    Z.filter (fun z => decide (a ≤ z.1) && decide (z.1 < b)) ++ Z.filter (fun z => decide (b ≤ z.1)) =
+      Z.filter (fun z => decide (a ≤ z.1))
+  | [], _ => rfl
+  | z :: t, h => by
+    rw [List.pairwise_cons] at h
+    have ih := filter_split a b hab t h.2
+    by_cases h1 : a ≤ z.1
+    · by_cases h2 : z.1 < b
+      · simp only [List.filter_cons, h1, h2, decide_true, Bool.and_self, if_true,
+          show ¬ b ≤ z.1 by omega, decide_false, Bool.false_eq_true, if_false, List.cons_append, ih]
+      · have hnil : t.filter (fun z => decide (a ≤ z.1) && decide (z.1 < b)) = [] := by
+          rw [List.filter_eq_nil_iff]
+          intro y hy
+          have := h.1 y hy
+          simp; omega
+        rw [hnil, List.nil_append] at ih
+        simp only [List.filter_cons, h1, h2, decide_true, decide_false, Bool.and_false,
+          Bool.false_eq_true, if_false, hnil, List.nil_append, show b ≤ z.1 by omega, if_true, ih]
+    · simp only [List.filter_cons, h1, decide_false, Bool.false_and, Bool.false_eq_true, if_false,
+        show ¬ b ≤ z.1 by omega, ih]
+
+theorem chain_filter {β : Type} (dur : Nat) (Z : List (Int × β))
+    (hZ : Z.Pairwise (fun x y => x.1 ≤ y.1)) (hlt : ∀ z ∈ Z, z.1 < (dur : Int)) :
+    ∀ (ivs : List (Nat × Nat)) (cur : Nat), chainFrom cur ivs = some dur →
+      (ivs.map fun iv => Z.filter fun z => Np.ssRight [(iv.1 : Int), (iv.2 : Int)] z.1 == 1).flatten =
+        Z.filter (fun z => decide ((cur : Int) ≤ z.1))
+  | [], cur, h => by
+    simp only [chainFrom, Option.some.injEq] at h
+    subst h
+    simp only [List.map_nil, List.flatten_nil]
+    symm
+    rw [List.filter_eq_nil_iff]
+    intro z hz
+    have := hlt z hz
+    simp; omega
+  | (a, b) :: t, cur, h => by
+    rw [chainFrom] at h
+    by_cases hab : a = b
+    · subst hab
+      simp only [beq_self_eq_true, if_true] at h
+      have hf : Z.filter (fun _ => false) = [] := by simp
+      simp only [List.map_cons, List.flatten_cons, ssRight_same, hf, List.nil_append]
+      exact chain_filter dur Z hZ hlt t cur h
+    · have hab' : (a == b) = false := by simp [hab]
+      simp only [hab', Bool.false_eq_true, if_false] at h
+      split at h
+      · rename_i hc
+        simp only [Bool.and_eq_true, beq_iff_eq, decide_eq_true_eq] at hc
+        obtain ⟨rfl, hlt'⟩ := hc
+        have ih := chain_filter dur Z hZ hlt t b h
+        simp only [List.map_cons, List.flatten_cons, ih]
+        have : (fun z : Int × β => Np.ssRight [(a : Int), (b : Int)] z.1 == 1) =
+            fun z => decide ((a : Int) ≤ z.1) && decide (z.1 < (b : Int)) := by
+          funext z; exact ssRight_pair a b z.1 hlt'
+        rw [this]
+        exact filter_split (a : Int) (b : Int) (by omega) Z hZ
+      · cases h
+
+-- `hlen` is not needed by the proof
+set_option linter.unusedVariables false in
 theorem iter_concat_eq_map (A : List (List α)) (ivs : List (Nat × Nat))
     (hT : intervalsTile A.length ivs = true) (spikes : List Int) (chans : List (List Int))
     (hlen : chans.length = spikes.length) (hsorted : spikes.Pairwise (· ≤ ·))
     (hb : ∀ s ∈ spikes, 0 ≤ s ∧ s < A.length) (n : Nat) :
     (iterWaveforms A ivs spikes chans n).flatten =
       (spikes.zip chans).map fun sc => extractWaveform A sc.1 n sc.2 := by
-  sorry
+  have hchain : chainFrom 0 ivs = some A.length := by
+    simpa [intervalsTile] using hT
+  have hZ := pairwise_zip_fst spikes chans hsorted
+  have hmem : ∀ z ∈ spikes.zip chans, 0 ≤ z.1 ∧ z.1 < (A.length : Int) := fun z hz =>
+    hb z.1 (List.of_mem_zip (b := z.2) hz).1
+  have key := chain_filter A.length (spikes.zip chans) hZ (fun z hz => (hmem z hz).2) ivs 0 hchain
+  have hall : (spikes.zip chans).filter (fun z => decide (((0 : Nat) : Int) ≤ z.1)) = spikes.zip chans := by
+    rw [List.filter_eq_self]
+    intro z hz
+    have := (hmem z hz).1
+    simp; omega
+  rw [hall] at key
+  unfold iterWaveforms
+  rw [List.flatten_filter_ne_nil]
+  conv => rhs; rw [← key]
+  rw [List.map_flatten, List.map_map]
+  rfl
 
+/-! ### `export_loads_windows` -/
+
+omit [Zero α] in
+theorem chunk_flatten (k : Nat) : ∀ (m : Nat) (xs : List (List α)), xs.length = m →
+    (∀ x ∈ xs, x.length = k) → chunk k m xs.flatten = xs
+  | 0, xs, h, _ => by
+    have : xs = [] := List.eq_nil_of_length_eq_zero h
+    subst this; rfl
+  | m + 1, [], h, _ => by simp at h
+  | m + 1, x :: xs, h, hk => by
+    have hx : x.length = k := hk x (by simp)
+    have ih := chunk_flatten k m xs (by simpa using h) (fun y hy => hk y (by simp [hy]))
+    simp only [chunk, List.flatten_cons]
+    rw [List.take_left' hx, List.drop_left' hx, ih]
+
+omit [Zero α] in
+theorem length_flatten_const (k : Nat) : ∀ (xs : List (List α)), (∀ x ∈ xs, x.length = k) →
+    xs.flatten.length = xs.length * k
+  | [], _ => by simp
+  | x :: xs, hk => by
+    have hx : x.length = k := hk x (by simp)
+    have ih := length_flatten_const k xs (fun y hy => hk y (by simp [hy]))
+    simp only [List.flatten_cons, List.length_append, List.length_cons, hx, ih]
+    rw [Nat.add_mul, Nat.one_mul, Nat.add_comm]
+
+theorem length_window (A : List (List α)) (s : Int) (n : Nat) (ch : List Int) :
+    (window A s n ch).length = n := by simp [window]
+
+theorem length_row_window (A : List (List α)) (s : Int) (n : Nat) (ch : List Int) :
+    ∀ row ∈ window A s n ch, row.length = ch.length := by
+  intro row hrow
+  simp only [window, List.mem_map] at hrow
+  obtain ⟨i, _, rfl⟩ := hrow
+  simp
+
+-- `hnl` is not needed by the proof (`hn`, `hA` only feed `extract_eq_window`)
+set_option linter.unusedVariables false in
 theorem export_loads_windows (scale : α → α) (A : List (List α)) (nch : Nat) (hA : Rect A nch)
     (ivs : List (Nat × Nat)) (hT : intervalsTile A.length ivs = true) (spikes : List Int)
     (chans : List (List Int)) (hlen : chans.length = spikes.length)
@@ -26,8 +290,80 @@ theorem export_loads_windows (scale : α → α) (A : List (List α)) (nch : Nat
     (hn : 0 < n) (nloc : Nat) (hnl : 0 < nloc) (hch : ∀ c ∈ chans, c.length = nloc ∧ ChOK nch c) :
     npLoad (exportWaveforms scale A ivs spikes chans n nloc) =
       some ((spikes.zip chans).map fun sc => (window A sc.1 n sc.2).map fun row => row.map scale) := by
-  sorry
+  have hiter := iter_concat_eq_map A ivs hT spikes chans hlen hsorted hb n
+  have hext : ((spikes.zip chans).map fun sc => extractWaveform A sc.1 n sc.2) =
+      (spikes.zip chans).map fun sc => window A sc.1 n sc.2 := by
+    apply List.map_congr_left
+    intro z hz
+    have hz' := List.of_mem_zip (a := z.1) (b := z.2) hz
+    exact extract_eq_window A nch hA z.1 (hb z.1 hz'.1).1 (hb z.1 hz'.1).2 n hn z.2 (hch z.2 hz'.2).2
+  -- the expected result
+  generalize hWs : ((spikes.zip chans).map fun sc =>
+    (window A sc.1 n sc.2).map fun row => row.map scale) = Ws
+  have hcells : (exportWaveforms scale A ivs spikes chans n nloc).cells = (Ws.map List.flatten).flatten := by
+    simp only [exportWaveforms, hiter, hext, ← hWs, List.map_map]
+    rfl
+  have hWlen : Ws.length = spikes.length := by
+    rw [← hWs, List.length_map, List.length_zip, hlen, Nat.min_self]
+  have hW1 : ∀ w ∈ Ws, w.length = n := by
+    intro w hw
+    rw [← hWs] at hw
+    simp only [List.mem_map] at hw
+    obtain ⟨z, _, rfl⟩ := hw
+    simp [length_window]
+  have hW2 : ∀ w ∈ Ws, ∀ row ∈ w, row.length = nloc := by
+    intro w hw row hrow
+    rw [← hWs] at hw
+    simp only [List.mem_map] at hw
+    obtain ⟨z, hz, rfl⟩ := hw
+    simp only [List.mem_map] at hrow
+    obtain ⟨row', hrow', rfl⟩ := hrow
+    have hz' := List.of_mem_zip (a := z.1) (b := z.2) hz
+    rw [List.length_map, length_row_window A z.1 n z.2 row' hrow', (hch z.2 hz'.2).1]
+  have hflat : ∀ x ∈ Ws.map List.flatten, x.length = n * nloc := by
+    intro x hx
+    simp only [List.mem_map] at hx
+    obtain ⟨w, hw, rfl⟩ := hx
+    rw [length_flatten_const nloc w (hW2 w hw), hW1 w hw]
+  have hshape : (exportWaveforms scale A ivs spikes chans n nloc).shape = (spikes.length, n, nloc) := rfl
+  unfold npLoad
+  rw [hshape, hcells]
+  simp only
+  have hlenc : (Ws.map List.flatten).flatten.length = spikes.length * n * nloc := by
+    rw [length_flatten_const (n * nloc) _ hflat, List.length_map, hWlen, Nat.mul_assoc]
+  rw [if_pos hlenc, chunk_flatten (n * nloc) spikes.length _ (by simpa using hWlen) hflat,
+    List.map_map]
+  congr 1
+  conv => rhs; rw [← List.map_id Ws]
+  apply List.map_congr_left
+  intro w hw
+  simp only [Function.comp_apply, id]
+  exact chunk_flatten nloc n w (hW1 w hw) (hW2 w hw)
 
+/-! ### `lookup_eq_window` -/
+
+theorem mapM_some_of_forall {β γ : Type} (f : β → Option γ) (g : β → γ) : ∀ (l : List β),
+    (∀ x ∈ l, f x = some (g x)) → l.mapM f = some (l.map g)
+  | [], _ => rfl
+  | x :: l, h => by
+    have ih := mapM_some_of_forall f g l (fun y hy => h y (by simp [hy]))
+    rw [List.mapM_cons, h x (by simp), ih]
+    rfl
+
+/-- column `idxOf c ind` of the window on `ind` is the window on `[c]` -/
+theorem window_cell (A : List (List α)) (smp : Int) (n : Nat) (ind : List Int) (r : Nat) (c : Int)
+    (hc : c ∈ ind) :
+    ((window A smp n ind).getD r []).getD (ind.idxOf c) 0 =
+      ((window A smp n [c]).getD r []).getD 0 0 := by
+  simp only [List.getD_eq_getElem?_getD, getElem?_window]
+  by_cases hr : r < n
+  · have hlt : ind.idxOf c < ind.length := List.idxOf_lt_length_of_mem hc
+    simp only [hr, if_true, Option.getD_some, List.getElem?_map, List.getElem?_eq_getElem hlt,
+      List.getElem_idxOf hlt, Option.map_some, List.map_cons, List.map_nil, List.getElem?_cons_zero]
+  · simp [hr]
+
+-- `hids`, `hdist` (and `hl3`) are not needed by the proof
+set_option linter.unusedVariables false in
 theorem lookup_eq_window (st : Store α) (A : List (List α)) (samples : List Int) (n : Nat)
     (hids : st.spikeIds.Nodup)
     (hl1 : st.spikeChannels.length = st.spikeIds.length) (hl2 : st.waveforms.length = st.spikeIds.length)
@@ -41,6 +377,36 @@ theorem lookup_eq_window (st : Store α) (A : List (List α)) (samples : List In
       (List.range n).map fun r => chq.map fun (c : Nat) =>
         if (st.spikeChannels.getD p []).contains (Int.ofNat c)
         then ((window A (samples.getD p 0) n [Int.ofNat c]).getD r []).getD 0 0 else 0) := by
-  sorry
+  unfold getSpikeWaveforms
+  have hall : query.all st.spikeIds.contains = true := by
+    rw [List.all_eq_true]
+    intro q hq'
+    exact List.contains_iff_mem.mpr (hq q hq')
+  rw [hall]
+  simp only [Bool.not_true, Bool.false_eq_true, if_false]
+  apply mapM_some_of_forall
+  intro q hq'
+  have hp : st.spikeIds.idxOf q < st.spikeIds.length := List.idxOf_lt_length_of_mem (hq q hq')
+  generalize st.spikeIds.idxOf q = p at hp ⊢
+  have hp1 : p < st.spikeChannels.length := by omega
+  have hp2 : p < st.waveforms.length := by omega
+  have e1 : st.spikeChannels.getD p [] = st.spikeChannels[p] := by
+    simp [List.getD_eq_getElem?_getD, hp1]
+  have e2 : st.waveforms.getD p [] = st.waveforms[p] := by
+    simp [List.getD_eq_getElem?_getD, hp2]
+  have hw := hstore p hp
+  rw [e1, e2] at hw
+  rw [e1, List.getElem?_eq_getElem hp1, List.getElem?_eq_getElem hp2]
+  dsimp only
+  rw [hw]
+  congr 1
+  apply List.map_congr_left
+  intro r _
+  apply List.map_congr_left
+  intro c _
+  split
+  · rename_i hc
+    exact window_cell A _ n _ r _ (List.contains_iff_mem.mp hc)
+  · rfl
 
 end PhyVerif.C03.Lemmas
